@@ -32,6 +32,12 @@ def obligations(tier):
     for nl in (16, 28):	# namelen 0 excluded: malloc(0) may be NULL and memcpy/memcmp(NULL, ., 0) trips CBMC's precondition although nothing is accessed
         obs.append(dict(name="allocfail-sockaddr-namelen%d" % nl, harness="../C15/sockaddr.c", entry="h_roundtrip", defs=["MMF", "NAMELEN=%d" % nl], vsrcs=["models/stub_warnp.c"], unwind=max(nl + 2, 8), mmf=True, flags=["--memory-leak-check"], backends=["cadical"], timeout=to,
                         claim="sock_addr_serialize / sock_addr_deserialize / sock_addr_dup with every allocation failing independently: -1 / NULL and nothing leaked (a half-built address is released); successful calls still round-trip", bounds="namelen %d" % nl, stubs=["warn -> empty"]))
+    for wl in (9, 17):
+        obs.append(dict(name="allocfail-netbuf-reader-wait-k%d" % wl, harness="../C07/rd.c", entry="h_wait", defs=["MAXLEN=20", "WLEN=%d" % wl], unwind=12, mmf=True, flags=["--memory-leak-check"], backends=["cadical"], timeout=to,
+                        claim="netbuf_read_wait(k=%d) when the buffer must grow and the allocation fails: -1, nothing pending, the buffered bytes and the window untouched, the reader still usable (cancel, free), nothing leaked" % wl,
+                        bounds="buffer sizes 1, 4, 8", stubs=["network_read / events_immediate -> recording models"]))
+    # events_network_register under a failing allocator (../C04/net.c with -DMMF): CBMC ran out of memory (28 GB) -- after a failed/successful realloc the
+    # socket list has a symbolic size; not registered
     extra = globals().get("more_obligations")
     if extra: obs += extra(tier)
     return obs
